@@ -201,8 +201,7 @@ CHECKS.update({
         design="4 C01",
         note="Trusted: vmc/fock.py (bit-string algebra, 150 lines), "
              "reference interpreter. Bounded: word length, names per space, "
-             "part B model spaces (2,2) (thorough: up to (3,3)). Known "
-             "finding: general index inside NO(...) raises AttributeError."),
+             "part B model spaces (2,2) (thorough: up to (3,3))."),
     "C02": dict(
         text="(mp, re) x (first-order singles off/on) x energy(0..3[4]), "
              "mp_amplitude / amplitude_residual for every class present at "
